@@ -574,10 +574,41 @@ func (g *gen) wildQuad() string {
 	return fmt.Sprintf("GI %s %s %s %s %s %s 0", bits(v[0]), bits(v[1]), bits(v[2]), bits(v[3]), bits(v[4]), bits(v[5]))
 }
 
-func (g *gen) ray(wild bool) string {
+func (g *gen) ray(w *world, wild bool) string {
 	r := g.rng
 	var f, t v3
-	if len(g.centres) > 0 && r.Intn(2) == 0 {
+	if r.Intn(6) == 0 {
+		// from a point on the grid's border (or one float32 step to either side of it), straight down or inwards
+		mn, mx := xyz(w.g.Min), xyz(w.g.Max)
+		near := func(v float32) float32 {
+			switch r.Intn(3) {
+			case 0:
+				return math.Nextafter32(v, float32(math.Inf(1)))
+			case 1:
+				return math.Nextafter32(v, float32(math.Inf(-1)))
+			}
+			return v
+		}
+		inside := func(lo, hi float32) float32 { return lo + float32(r.Float64())*(hi-lo) }
+		f = v3{inside(mn.x, mx.x), 3, inside(mn.z, mx.z)}
+		switch r.Intn(4) {
+		case 0:
+			f.x = near(mx.x)
+		case 1:
+			f.x = near(mn.x)
+		case 2:
+			f.z = near(mx.z)
+		default:
+			f.z = near(mn.z)
+		}
+		if r.Intn(3) == 0 { // a corner
+			f.x, f.z = near([]float32{mn.x, mx.x}[r.Intn(2)]), near([]float32{mn.z, mx.z}[r.Intn(2)])
+		}
+		t = v3{f.x, -3, f.z}
+		if r.Intn(2) == 0 {
+			t.x, t.z = inside(mn.x, mx.x), inside(mn.z, mx.z)
+		}
+	} else if len(g.centres) > 0 && r.Intn(2) == 0 {
 		c := g.centres[r.Intn(len(g.centres))]
 		f, t = v3{c.x, c.y + 2, c.z}, v3{c.x, c.y - 2, c.z}
 		if r.Intn(3) == 0 {
@@ -701,7 +732,7 @@ func runGenerated(seed int64, histories, length int, profile string, wild bool) 
 			case k < 7:
 				line = g.quad()
 			case k < 9:
-				line = g.ray(wild && rng.Intn(3) == 0)
+				line = g.ray(w, wild && rng.Intn(3) == 0)
 			default:
 				line = g.region(w, wild && rng.Intn(3) == 0)
 			}
